@@ -134,7 +134,7 @@ fn run_unit(ctx: &Ctx, u: &Unit, seed: u64) {
                 let mut b = to_engine(root);
                 let mut path = vec![];
                 w.nodes_this_pass = 0;
-                w.node_cap = if *depth >= 4 { 260_000 } else { 60_000 };
+                w.node_cap = if *depth == 4 { 260_000 } else { 60_000 };
                 w.dfs(root, &mut b, *depth, &mut path, pass > 0);
                 w.l.inc("walk_passes");
                 w.l.flush(ctx);
@@ -249,6 +249,9 @@ pub fn c02(o: &Opts) -> i32 {
     // kiwipete & friends first (dense in ep / castling transpositions)
     for i in 0..6.min(corpus.len()) { units.push(Unit::Walk { root: corpus[i].0.clone(), depth: if q { 2 } else { 3 }, passes: 2, label: corpus[i].1.clone() }); }
     for &i in idx.iter().take(if q { 24 } else { corpus.len() }) { if i >= 6 { units.push(Unit::Walk { root: corpus[i].0.clone(), depth: 3, passes: 2, label: corpus[i].1.clone() }); } }
+    // deeper exhaustive histories on sparse pawn positions (double steps, en-passant chances and their transpositions)
+    for (p, t) in corpus.iter() { if p.piece_count() <= 6 && p.sq.iter().any(|x| matches!(x, Some((_, Pc::P)))) && (!q || units.len() < 60) { units.push(Unit::Walk { root: p.clone(), depth: 5, passes: 2, label: format!("{} (sparse, depth 5)", t) }); } }
+    for k in 0..if q { 14 } else { 120 } { let p = gen::ep_rich_sparse(&mut r); units.insert(2 + k.min(units.len() - 2), Unit::Walk { root: p, depth: 5, passes: 2, label: "en-passant-rich sparse set-up (depth 5)".into() }); }
     for k in 0..if q { 6 } else { 40 } { units.push(Unit::Games { seed: o.seed.wrapping_mul(1000).wrapping_add(k), n: if q { 6 } else { 20 } }); }
     for &i in idx.iter().take(if q { 6 } else { 40 }) { units.push(Unit::AfterSearch { root: corpus[i].0.clone() }); }
     // return trips from every corpus position that has castling rights or an ep target, and from castle-focused set-ups
